@@ -58,3 +58,6 @@ Definition TFUEL : nat := 24%nat.
 (* ---- C05: regular expressions ---- *)
 From PFL Require Export Model.RegexParse.
 Definition judge_re2 (r1 r2 : re) : verdict := judge (renumber (re_fa r1)) (renumber (re_fa r2)).
+
+(* ---- C07: Python regular expressions ---- *)
+From PFL Require Export Model.PyRegex.
